@@ -365,7 +365,7 @@ func c16Sys(o *out, cs c16SysCase) (blocked bool) {
 
 // c16Long runs one goroutine's program against an interval recorder whose interval (one hour) never elapses during
 // the run, bare or behind NewSynchronizedRecorder: the flusher only ever sees its cancellation, never a tick. After
-// every EndTest / Reset the flusher goroutine has to be gone (it is not allowed to linger until the next tick), every
+// every EndTest / Reset the flusher goroutine has to be gone within two seconds (it is not allowed to linger until the next tick), every
 // BeginIteration that follows one starts exactly one, and the EndTest samples are the sums since the previous
 // EndTest / Reset.
 func c16Long(o *out, kind string, wrapped bool, prog []string) (blocked bool) {
@@ -404,7 +404,7 @@ func c16Long(o *out, kind string, wrapped bool, prog []string) (blocked bool) {
 		switch t[0] {
 		case 'B':
 			call("BeginIteration", rec.BeginIteration)
-			if n := waitFor(20*time.Millisecond, func(n int) bool { return n > before }); n > before {
+			if n := waitFor(250*time.Millisecond, func(n int) bool { return n > before }); n > before {
 				flushers += n - before
 			}
 		case 'I':
@@ -415,15 +415,15 @@ func c16Long(o *out, kind string, wrapped bool, prog []string) (blocked bool) {
 			call("EndIteration", func() { rec.EndIteration(time.Millisecond) })
 		case 'T':
 			call("EndTest", func() { _ = rec.EndTest() })
-			lingering += waitFor(300*time.Millisecond, func(n int) bool { return n <= 0 })
+			lingering += waitFor(2*time.Second, func(n int) bool { return n <= 0 })
 		case 'R':
 			call("Reset", rec.Reset)
-			lingering += waitFor(300*time.Millisecond, func(n int) bool { return n <= 0 })
+			lingering += waitFor(2*time.Second, func(n int) bool { return n <= 0 })
 		}
 	}
 	left := 0
 	if !blocked {
-		left = waitFor(300*time.Millisecond, func(n int) bool { return n <= 0 })
+		left = waitFor(2*time.Second, func(n int) bool { return n <= 0 })
 	}
 	if left < lingering {
 		left = lingering // a flusher that outlived its cycle and was only ended by a later call
